@@ -1,13 +1,21 @@
 """C20 — Recording never destroys data that is not a uftrace data directory.
 Lean: Uft/Model/DirGuard.lean, Uft/Props/C20.lean.  Tie: correspondence (H4):
 the real create_directory()/remove_directory() of utils/utils.c run on generated
-directory trees with injected syscall failures, against the model."""
+directory trees with injected syscall failures, against the model; execution paths of whole commands
+(`trace` cases: sequences of create/remove on several names) against `stepEv`.
+Tie: translator (T): translators/c20_dircallers.py regenerates lean/Uft/Gen/DirCallers.lean (the
+directory events on every execution path of every command_* of cmds/*.c that can reach
+create_directory/remove_directory/mkstemp); `c20_every_entry_point_guards` is re-proved over it.
+End to end: every such command (record, record --host, live, live --record, script --record, the
+default mode, recv) and the read-only commands, against the pre-populated DIR / DIR.old grid."""
 import json
 import os
+import re
 import shutil
 import subprocess
 
 from lib import common as C
+from translators import c20_dircallers
 
 MAGIC = b"Ftrace!\0"
 
@@ -154,13 +162,46 @@ def monitor(pre, post, ok, d):
     return None
 
 
-def run(ctx):
-    ok, problems = C.prove(ctx, "C20")
-    if not ok:
-        C.violation(ctx, "proof", {"kind": "proof-obligation-broken", "problems": problems}, True)
-        return C.finish(ctx)
+def guarded_py(trace):
+    """Python reading of Model/DirGuard `guarded` (used only to point at the paths that break the proof)"""
+    owned = set()
+    for kind, p in trace:
+        if kind in ("fresh", "createOk"):
+            owned.add(p)
+        elif kind == "remove" and p not in owned:
+            return False
+    return True
 
+
+def run(ctx):
     ctx.snapshot()
+    tr = None
+    try:
+        tr = c20_dircallers.main(ctx.src)
+        ctx.notes.append("Gen/DirCallers.lean regenerated from the snapshot's cmds/*.c (changed=%s): %s; %d raw "
+                         "unlink/rename/... calls; callers outside cmds: %s" % (
+                             tr["changed"], ", ".join("%s %d paths" % e for e in tr["entries"]), tr["raw"], tr["others"]))
+    except Exception as e:        # the translator cannot read the sources any more
+        C.violation(ctx, "translator", {"kind": "translator-failed", "error": str(e)[-1500:]}, True)
+    ok, problems = C.prove(ctx, "C20")
+    suspects = []
+    if not ok:
+        # section 7: a broken obligation is not yet a violation of C20; say which execution paths are not
+        # guarded (model-guided), then let the harness and the end-to-end matrix look for a concrete input
+        if tr:
+            for name, traces in tr["traces"].items():
+                for t in traces:
+                    if not guarded_py([tuple(e) for e in t]):
+                        suspects.append({"entry_point": name, "path": " ".join("%s(%s)" % tuple(e) for e in t)})
+        C.violation(ctx, "proof", {"kind": "proof-obligation-broken", "problems": problems,
+                                   "unguarded_execution_paths": suspects[:10],
+                                   "theorem": "c20_every_entry_point_guards" if suspects else None}, True)
+        okd, _ = C.lake_build(["uv_C20"])
+        if not okd:
+            e2e_runs, e2e_bad, e2e_cov = e2e(ctx)
+            ctx.coverage.update({"evaluations": e2e_runs, "distinct_nontrivial": 0, "e2e": e2e_cov,
+                                 "e2e_record_runs": e2e_runs, "e2e_monitor_failures": e2e_bad})
+            return C.finish(ctx)
     exe = os.path.join(ctx.scratch, "h_c20")
     okc, log = ctx.cc(exe, [os.path.join(C.VERIF, "harness/c20_dirguard.c"),
                             os.path.join(ctx.src, "utils/utils.c"),
@@ -217,6 +258,49 @@ def run(ctx):
             cases.append(("live %s uftrace-live-abc %s %s" % (parent, fsrc, f), {"live": True, "faults": f}))
             nlive += 1
 
+    # execution paths of whole commands: several names, create / remove in any order (guarded or not)
+    ntrace = 0
+    names = ["DIR", "TMP", "DIR.old", "X"]
+    cfile = os.path.join(C.VERIF, "corpus", "C20", "traces.txt")
+    if os.path.exists(cfile):
+        for l in open(cfile):
+            w = l.split()
+            if len(w) != 4 or l.startswith("#") or w[0] not in bs or w[1] not in bs:
+                continue
+            parent = os.path.join(fsroot, "c%d" % n)
+            n += 1
+            os.makedirs(parent)
+            materialize(os.path.join(parent, "DIR"), bs[w[0]])
+            materialize(os.path.join(parent, "DIR.old"), bs[w[1]])
+            materialize(os.path.join(parent, "bystander"), {"keep": b"me", "more": {"deep": b"precious"}})
+            cases.append(("trace %s %s %s %s" % (parent, w[2], fill, w[3]), {"trace": w[2].split(","), "faults": w[3],
+                                                                            "corpus": True}))
+            ntrace += 1
+    for _ in range(250 if ctx.tier == "quick" else 4000):
+        parent = os.path.join(fsroot, "c%d" % n)
+        n += 1
+        os.makedirs(parent)
+        for nm in names[:3]:
+            if ctx.rng.random() < 0.6:
+                st = ctx.rng.choice(list(bs.values())) if ctx.rng.random() < 0.6 else rand_state(ctx.rng)
+                materialize(os.path.join(parent, nm), st)
+        materialize(os.path.join(parent, "bystander"), {"keep": b"me", "more": {"deep": b"precious"}})
+        evs = []
+        shape = ctx.rng.random()
+        if shape < 0.35:       # the shapes the commands have: create, (fill), maybe remove; cleanup after failure
+            nm = ctx.rng.choice(names[:2])
+            evs = ["c:" + nm] + (["r:" + nm] if ctx.rng.random() < 0.6 else [])
+            if ctx.rng.random() < 0.3:
+                evs = ["f:" + nm] + evs + ["r:" + nm]
+        else:
+            for _ in range(ctx.rng.randint(1, 6)):
+                evs.append(ctx.rng.choice(["c:", "c:", "r:", "f:"]) + ctx.rng.choice(names))
+        k = ctx.rng.choice([0, 0, 0, 1, 2])
+        fl = ",".join("%s:%d" % (ctx.rng.choice(kinds), ctx.rng.randint(0, 3)) for _ in range(k)) or "-"
+        cases.append(("trace %s %s %s %s" % (parent, ",".join(evs), ctx.rng.choice([fill, fill_empty]), fl),
+                      {"trace": evs, "faults": fl}))
+        ntrace += 1
+
     r = subprocess.run([exe], input="\n".join(c[0] for c in cases) + "\n", stdout=subprocess.PIPE,
                        stderr=subprocess.PIPE, text=True, timeout=1200)
     lines = r.stdout.split("\n")
@@ -230,6 +314,7 @@ def run(ctx):
         return C.finish(ctx)
     mout = C.run_model("C20", models)
     pre_models = C.run_model("C20", [("cdpre" + m[2:]) if m.startswith("cd ") else m for m in models])
+    guarded_traces = 0
 
     disagree = 0
     monitor_fail = 0
@@ -239,7 +324,12 @@ def run(ctx):
     first_replays = 0
     for i, (case, desc) in enumerate(cases):
         mi, mm = C.norm(impls[i]), C.norm(mout[i])
-        distinct.add(models[i].split("|", 1)[1] + "#" + str(desc.get("faults")))
+        g = None
+        if case.startswith("trace "):
+            mg = re.search(r" g=([01])", mm)
+            g = mg.group(1) if mg else None
+            mm = re.sub(r" g=[01]", "", mm)
+        distinct.add(models[i].split("|", 1)[1] + "#" + str(desc.get("faults")) + "#" + str(desc.get("trace")))
         if len(samples) < 4 and i % 97 == 5:
             samples.append({"model_input": models[i][:300], "impl": mi[:300], "model": mm[:300]})
         bad = None
@@ -248,6 +338,15 @@ def run(ctx):
             okflag = mi.split("|")[0].strip() == "ok=1"
             post = parse_tree(mi.split("|", 1)[1].split())
             bad = monitor(pre, post, okflag, "DIR")
+        elif case.startswith("trace "):
+            # C20 for a guarded path: what was foreign at the start holds what it held
+            pre = parse_tree(models[i].split("|")[1].split())
+            post = parse_tree(mi.split("|", 1)[1].split())
+            if g == "1":
+                guarded_traces += 1
+                for k, v in pre.items():
+                    if not can_remove(v) and post.get(k) != v:
+                        bad = "a guarded execution path changed %r, which was not uftrace data" % k
         else:
             pre = parse_tree(models[i].split("|")[1].split())
             post = parse_tree(mi.split())
@@ -268,18 +367,23 @@ def run(ctx):
                     "what": bad, "harness_case": case, "desc": desc, "model_input": models[i],
                     "impl_output": mi, "model_output": mm,
                     "matches_prefix_model_F1": is_prefix,
-                    "theorem": "c20_foreign_untouched" if bad else None,
+                    "theorem": ("c20_guarded_trace_foreign_untouched" if case.startswith("trace ") else
+                                "c20_foreign_untouched") if bad else None,
                 }, no_failing_input=not bad)
     if (disagree or monitor_fail) and first_replays == 0:
         pass
-    e2e_runs, e2e_bad = e2e(ctx)
+    e2e_runs, e2e_bad, e2e_cov = e2e(ctx)
     ctx.coverage.update({
-        "e2e_record_runs": e2e_runs, "e2e_monitor_failures": e2e_bad,
+        "e2e_record_runs": e2e_runs, "e2e_monitor_failures": e2e_bad, "e2e": e2e_cov,
+        "trace_cases": ntrace, "trace_cases_guarded": guarded_traces,
+        "entry_points_from_source": tr["entries"] if tr else None,
         "evaluations": len(cases),
         "distinct_nontrivial": len(distinct),
         "rule": "exhaustive 9x9 grid of DIR/DIR.old pre-states x {no fault, k-th (k<2) failure of each of "
                 "stat/unlink/rmdir/rename/mkdir/fopen}; then random trees (depth<=3) with 0-3 random faults; "
-                "then live-mode cases. distinct = distinct (readdir-ordered pre-tree, fault set) pairs",
+                "then live-mode cases; then execution paths (1-6 create/remove/fresh events over 4 names, 0-2 faults). "
+                "distinct = distinct (readdir-ordered pre-tree, fault set, path) triples. e2e: every command that "
+                "can create or remove a data directory x the DIR/DIR.old state grid, monitor = C20's statement",
         "grid_cases": grid, "random_cases": nrand, "live_cases": nlive,
         "faults_fired": fired,
         "model_code_disagreements": disagree,
@@ -307,15 +411,54 @@ def snapshot_tree(path):
         return b"<unreadable>"
 
 
-def e2e(ctx):
-    """The real `uftrace record` / `record --host` / live runs of the snapshot build against
-    pre-populated DIR / DIR.old; the property monitor is evaluated on the file system."""
+SCRIPT_PY = """def uftrace_begin(ctx):
+    pass
+def uftrace_entry(ctx):
+    pass
+def uftrace_exit(ctx):
+    pass
+def uftrace_end():
+    pass
+"""
+
+# every command that can create or remove a data directory (Gen/DirCallers.entryPoints, checked by
+# c20_entry_points_covered_by_e2e) and how it is driven; "target" = what -d DIR means for it:
+#   data     DIR is where the data goes: C20's statement applies as it stands
+#   ignored  the command works elsewhere (a temporary directory of its own): DIR must stay as it is
+#   reader   the command only reads DIR: everything must stay as it is
+ENTRY_MODES = [
+    # name, entry point, target, argv after `uftrace` (DIR/prog/script/port are substituted)
+    ("record", "command_record", "data", ["record", "-d", "DIR", "PROG"]),
+    ("record-host", "command_record", "data", ["record", "-d", "DIR", "--host", "127.0.0.1", "--port", "PORT", "PROG"]),
+    ("live-record", "command_live", "data", ["live", "--record", "-d", "DIR", "PROG"]),
+    ("default-record", "command_live", "data", ["--record", "-d", "DIR", "PROG"]),
+    ("script-record", "command_script", "data", ["script", "--record", "-S", "SCRIPT", "-d", "DIR", "PROG"]),
+    ("live", "command_live", "ignored", ["live", "PROG"]),
+    ("live-d", "command_live", "ignored", ["live", "-d", "DIR", "PROG"]),
+    ("record-nop", "command_record", "ignored", ["record", "--nop", "-d", "DIR", "PROG"]),
+    ("replay", None, "reader", ["replay", "-d", "DIR"]),
+    ("report", None, "reader", ["report", "-d", "DIR"]),
+    ("info", None, "reader", ["info", "-d", "DIR"]),
+    ("dump", None, "reader", ["dump", "-d", "DIR"]),
+    ("graph", None, "reader", ["graph", "-d", "DIR"]),
+    ("script", "command_script", "reader", ["script", "-S", "SCRIPT", "-d", "DIR"]),
+    ("tui", None, "reader", ["tui", "-d", "DIR"]),
+]
+E2E_STATES = ["absent", "empty", "uftrace-info", "foreign-file", "foreign-nested", "is-a-file", "only-hidden", "bad-info"]
+E2E_OLD = ["absent", "foreign-file", "uftrace-opts-only", "uftrace-with-links"]
+
+
+def e2e(ctx, only=None):
+    """Every command of the snapshot build that can create or remove a data directory (and the read-only
+    ones), run against pre-populated DIR / DIR.old; the property monitor is evaluated on the file system.
+    -> (runs, monitor failures, coverage)"""
     import socket
     import time
+    from concurrent.futures import ThreadPoolExecutor
     ok, log = ctx.make()
     if not ok:
         C.violation(ctx, "make", {"kind": "build-failed", "log": log[-2000:]}, True)
-        return 0, 0
+        return 0, 0, {"built": False}
     uft = os.path.join(ctx.src, "uftrace")
     work = os.path.join(ctx.scratch, "e2e")
     os.makedirs(work)
@@ -323,6 +466,8 @@ def e2e(ctx):
     open(prog_c, "w").write("int f(int x){return x+1;} int main(void){return f(1)-2;}\n")
     prog = os.path.join(work, "prog")
     subprocess.run(["gcc", "-pg", "-o", prog, prog_c], check=True)
+    script = os.path.join(work, "s.py")
+    open(script, "w").write(SCRIPT_PY)
     # loopback receiver for --host
     sock = socket.socket()
     sock.bind(("127.0.0.1", 0))
@@ -332,81 +477,188 @@ def e2e(ctx):
                            stdout=subprocess.DEVNULL, stderr=subprocess.DEVNULL)
     time.sleep(0.5)
     bs = basic_states()
-    states = ["absent", "empty", "uftrace-info", "foreign-file", "foreign-nested", "is-a-file", "only-hidden", "bad-info"]
+    common = ["--libmcount-path=" + os.path.join(ctx.src, "libmcount"), "--no-event", "--no-pager"]
+    env = dict(os.environ, TERM="dumb")
+    jobs = []
+    for name, ep, target, argv in ENTRY_MODES:
+        olds = E2E_OLD if target == "data" else ["absent", "foreign-file"]
+        states = E2E_STATES
+        if name in ("live", "default-record"):
+            states = ["absent", "foreign-file", "uftrace-info"]
+        if target != "data" and ctx.tier == "quick":
+            olds = olds[:1] if name != "live-d" else olds
+        for dn in states:
+            for on in olds:
+                jobs.append((name, ep, target, argv, dn, on))
+    if only is not None:
+        jobs = [(name, ep, target, argv, only[1], only[2]) for name, ep, target, argv in ENTRY_MODES if name == only[0]]
+
+    def one(job):
+        name, ep, target, argv, dn, on = job
+        parent = os.path.join(work, "%s-%s-%s" % (name, dn, on))
+        os.makedirs(parent)
+        materialize(os.path.join(parent, "DIR"), bs[dn])
+        materialize(os.path.join(parent, "DIR.old"), bs[on])
+        materialize(os.path.join(parent, "bystander"), {"keep": b"me", "more": {"deep": b"precious"}})
+        pre = snapshot_tree(parent)
+        sub = {"PROG": prog, "SCRIPT": script, "PORT": str(port)}
+        args = [sub.get(a, a) for a in argv]
+        # the options every recording command needs here go right after the sub-command (or first)
+        k = 1 if args[0] in ("record", "live", "script") else 0
+        if target != "reader" or name == "script":
+            args = args[:k] + (common if name != "script" else ["--no-pager"]) + args[k:]
+        else:
+            args = args[:k] + ["--no-pager"] + args[k:]
+        cmd = [uft] + args
+        try:
+            p = subprocess.run(cmd, cwd=parent, stdin=subprocess.DEVNULL, stdout=subprocess.PIPE,
+                               stderr=subprocess.PIPE, timeout=60, env=env)
+            rc = p.returncode
+            err = p.stderr.decode(errors="replace")[-300:]
+        except subprocess.TimeoutExpired:
+            rc, err = -999, "TIMEOUT"
+        post = snapshot_tree(parent)
+        for t in (pre, post):
+            t.pop("gmon.out", None)
+        if target == "data":
+            what = monitor(pre, post, rc == 0, "DIR")
+            if not what and dn == "absent" and on == "absent":
+                # the command line itself has to work: a recording into a fresh name succeeds
+                made = isinstance(post.get("DIR"), dict) and "info" in post["DIR"]
+                if rc != 0 or (not made and name != "record-host"):
+                    return {"job": job, "what": None, "broken": "rc=%d, DIR %s" % (rc, "made" if made else "not made"),
+                            "rc": rc, "stderr": err, "cmd": " ".join(cmd).replace(work + "/", ""), "after": sorted(post.keys())}
+        else:
+            what = None if pre == post else "%s changed files although -d DIR is not where it writes" % name
+        return {"job": job, "what": what, "rc": rc, "stderr": err, "cmd": " ".join(cmd).replace(work + "/", ""),
+                "after": sorted(post.keys())}
+
     runs = bad = 0
+    by_mode = {}
+    reported = set()
     try:
-        for mode in ("local", "host", "live"):
-            for dn in states:
-                for on in (["absent", "foreign-file", "uftrace-opts-only", "uftrace-with-links"] if mode != "live" else ["absent"]):
-                    if mode == "live" and dn not in ("absent", "foreign-file"):
-                        continue
-                    parent = os.path.join(work, "%s-%s-%s" % (mode, dn, on))
-                    os.makedirs(parent)
-                    materialize(os.path.join(parent, "DIR"), bs[dn])
-                    materialize(os.path.join(parent, "DIR.old"), bs[on])
-                    materialize(os.path.join(parent, "bystander"), {"keep": b"me", "more": {"deep": b"precious"}})
-                    pre = snapshot_tree(parent)
-                    cmd = [uft, "record", "--libmcount-path=" + os.path.join(ctx.src, "libmcount"), "--no-event", "-d", "DIR"]
-                    if mode == "host":
-                        cmd += ["--host", "127.0.0.1", "--port", str(port)]
-                    if mode == "live":
-                        # live mode works in a temporary directory of its own; DIR here is a bystander
-                        cmd = [uft, "live", "--libmcount-path=" + os.path.join(ctx.src, "libmcount"), "--no-event", "--no-pager"]
-                    try:
-                        p = subprocess.run(cmd + [prog], cwd=parent, stdout=subprocess.PIPE, stderr=subprocess.PIPE, timeout=60)
-                        rc = p.returncode
-                    except subprocess.TimeoutExpired:
-                        rc = -999
-                    post = snapshot_tree(parent)
-                    runs += 1
-                    for t in (pre, post):
-                        t.pop("gmon.out", None)
-                    if mode == "live":
-                        what = None if pre == post else "live mode changed files it did not create"
-                    else:
-                        # the tracee exits non-zero on purpose?  no: rc 0 means recording succeeded
-                        what = monitor(pre, post, rc == 0, "DIR")
-                    if what:
-                        bad += 1
-                        if bad <= 2:
-                            C.violation(ctx, "e2e-%s-%s-%s" % (mode, dn, on), {
-                                "kind": "property-violated-on-implementation", "what": what, "mode": mode,
-                                "command": " ".join(cmd + ["./prog"]), "DIR_before": dn, "DIR.old_before": on,
-                                "after": sorted(post.keys()), "uftrace_rc": rc,
-                                "theorem": "c20_foreign_untouched / c20_record_run_foreign_untouched"})
-        # the receiving side: a directory of the same name in the receiver's working directory that is
-        # somebody else's data must stay as it is (recv must not write into it)
-        for dn in ("foreign-file", "bad-info", "foreign-nested", "is-a-file"):
-            name = "R" + dn.replace("-", "")
+        with ThreadPoolExecutor(8) as ex:
+            results = list(ex.map(one, jobs))
+        # report the most telling case of a mode first: DIR itself foreign, nothing else going on
+        rank = {"foreign-file": 0, "foreign-nested": 1, "only-hidden": 2, "bad-info": 3, "is-a-file": 4}
+        results.sort(key=lambda r: (rank.get(r["job"][4], 9), r["job"][5] != "absent"))
+        for r in results:
+            name, ep, target, argv, dn, on = r["job"]
+            runs += 1
+            by_mode[name] = by_mode.get(name, 0) + 1
+            if r.get("broken") and "broken" not in reported:
+                reported.add("broken")
+                C.violation(ctx, "e2e-cmdline-%s" % name, {"kind": "harness-failed", "what": "the command does not record "
+                                                          "into a fresh directory: " + r["broken"], "command": r["cmd"],
+                                                          "stderr": r["stderr"]}, True)
+            if r["what"]:
+                bad += 1
+                if name not in reported and len(reported) < 4:
+                    reported.add(name)
+                    C.violation(ctx, "e2e-%s-%s-%s" % (name, dn, on), {
+                        "kind": "property-violated-on-implementation", "what": r["what"], "mode": name,
+                        "entry_point": ep, "command": r["cmd"], "cwd": "a directory holding DIR, DIR.old, bystander/",
+                        "DIR_before": dn, "DIR.old_before": on, "DIR_before_content": repr(bs[dn])[:300],
+                        "after": r["after"], "uftrace_rc": r["rc"], "stderr": r["stderr"],
+                        "theorem": "c20_foreign_untouched / c20_entry_points_foreign_untouched"})
+        # the receiving side: a directory of the client's name (and its .old) in the receiver's working
+        # directory that is somebody else's data must stay as it is (recv must not write into it)
+        rjobs = []
+        for i, dn in enumerate(E2E_STATES if only is None else []):
+            for j, on in enumerate(E2E_OLD if ctx.tier == "thorough" else E2E_OLD[:2]):
+                if dn == "absent" and on == "absent":
+                    continue
+                rjobs.append(("R%d%d" % (i, j), dn, on))
+        for name, dn, on in rjobs:
             materialize(os.path.join(work, "rcv", name), bs[dn])
-            pre = snapshot_tree(os.path.join(work, "rcv", name))
-            parent = os.path.join(work, "hostfrom-" + dn)
+            materialize(os.path.join(work, "rcv", name + ".old"), bs[on])
+        pre_rcv = snapshot_tree(os.path.join(work, "rcv"))
+
+        def rone(job):
+            name, dn, on = job
+            parent = os.path.join(work, "hostfrom-" + name)
             os.makedirs(parent)
-            cmd = [uft, "record", "--libmcount-path=" + os.path.join(ctx.src, "libmcount"), "--no-event", "-d", name,
-                   "--host", "127.0.0.1", "--port", str(port)]
+            cmd = [uft, "record"] + common + ["-d", name, "--host", "127.0.0.1", "--port", str(port), prog]
             try:
-                rc = subprocess.run(cmd + [prog], cwd=parent, stdout=subprocess.PIPE, stderr=subprocess.PIPE, timeout=60).returncode
+                rc = subprocess.run(cmd, cwd=parent, stdout=subprocess.PIPE, stderr=subprocess.PIPE, timeout=60).returncode
             except subprocess.TimeoutExpired:
                 rc = -999
-            time.sleep(0.3)
-            post = snapshot_tree(os.path.join(work, "rcv", name))
+            return rc, " ".join(cmd).replace(work + "/", "")
+        with ThreadPoolExecutor(4) as ex:
+            rres = list(ex.map(rone, rjobs))
+        time.sleep(0.5)
+        post_rcv = snapshot_tree(os.path.join(work, "rcv"))
+        for (name, dn, on), (rc, cmd) in zip(rjobs, rres):
             runs += 1
-            if pre != post:
+            by_mode["recv"] = by_mode.get("recv", 0) + 1
+            what = None
+            for nm, stn in ((name, dn), (name + ".old", on)):
+                if pre_rcv.get(nm) is not None and not can_remove(pre_rcv.get(nm)) and post_rcv.get(nm) != pre_rcv.get(nm):
+                    what = "uftrace recv changed %s in its working directory, which was not uftrace data (%s)" % (nm, stn)
+            if what:
                 bad += 1
-                if bad <= 3:
-                    C.violation(ctx, "e2e-recv-%s" % dn, {
-                        "kind": "property-violated-on-implementation",
-                        "what": "uftrace recv wrote into a directory of its working directory that is not uftrace data",
-                        "command": " ".join(cmd + ["./prog"]), "receiver_dir_before": dn,
-                        "before": sorted(pre) if isinstance(pre, dict) else "file", "after": sorted(post) if isinstance(post, dict) else "file",
-                        "uftrace_rc": rc, "theorem": "c20_foreign_untouched (create_directory refused; the caller must not go on)"})
+                if "recv" not in reported:
+                    reported.add("recv")
+                    C.violation(ctx, "e2e-recv-%s-%s" % (dn, on), {
+                        "kind": "property-violated-on-implementation", "what": what, "entry_point": "command_recv",
+                        "command": cmd, "receiver_dir_before": dn, "receiver_dir_old_before": on, "uftrace_rc": rc,
+                        "theorem": "c20_foreign_untouched (create_directory refused; the caller must not go on)"})
     finally:
         rcv.kill()
         rcv.wait()
-    return runs, bad
+    return runs, bad, {"built": True, "runs_by_mode": by_mode, "monitor_failures": bad}
+
+
+def tree_from_tokens(tokens):
+    """parse_tree output -> what materialize() takes (same shape)"""
+    return parse_tree(tokens)
 
 
 def replay(ctx, path):
     r = json.load(open(path))
     print(json.dumps(r, indent=1))
+    if r.get("mode") and r.get("DIR_before") is not None:
+        # an end-to-end case: the same command against the same pre-populated directories, current tree
+        ctx.snapshot()
+        before = len(ctx.violations)
+        runs, bad, cov = e2e(ctx, only=(r["mode"], r["DIR_before"], r["DIR.old_before"]))
+        print("re-run of `%s` with DIR=%s DIR.old=%s: %d run(s), monitor failures: %d" % (
+            r["mode"], r["DIR_before"], r["DIR.old_before"], runs, bad))
+        for p, _ in ctx.violations[before:]:
+            print("  " + json.load(open(p)).get("what", ""))
+        return 1 if bad else 0
+    case = r.get("harness_case", "")
+    if r.get("model_input") and case.split(" ")[0] in ("cd", "trace"):
+        ctx.snapshot()
+        exe = os.path.join(ctx.scratch, "h_c20")
+        okc, log = ctx.cc(exe, [os.path.join(C.VERIF, "harness/c20_dirguard.c"), os.path.join(ctx.src, "utils/utils.c"),
+                                os.path.join(ctx.src, "utils/debug.c")], extra=["-ldl"])
+        if not okc:
+            print("harness build failed:\n" + log[-1500:])
+            return 2
+        parent = os.path.join(ctx.scratch, "replay")
+        pre = parse_tree(r["model_input"].split("|")[1].split())
+        os.makedirs(parent)
+        for k, v in pre.items():
+            materialize(os.path.join(parent, k), v)
+        fill = os.path.join(ctx.scratch, "fill")
+        materialize(fill, {"1.dat": b"\x00", "info": MAGIC, "sub": {"k": b""}})
+        w = case.split(" ")
+        line = " ".join([w[0], parent] + w[2:]) if w[0] == "cd" else " ".join([w[0], parent, w[2], fill, w[4]])
+        p = subprocess.run([exe], input=line + "\n", stdout=subprocess.PIPE, stderr=subprocess.PIPE, text=True, timeout=120)
+        lines = p.stdout.split("\n")
+        models = [l[6:] for l in lines if l.startswith("MODEL ")]
+        impls = [l[5:] for l in lines if l.startswith("IMPL ")]
+        if len(models) != 1 or len(impls) != 1:
+            print("harness failed: " + p.stderr[-500:])
+            return 2
+        mm = re.sub(r" g=[01]", "", C.norm(C.run_model("C20", models)[0]))
+        mi = C.norm(impls[0])
+        print("case           : " + line)
+        print("implementation : " + mi)
+        print("model          : " + mm)
+        post = parse_tree(mi.split("|", 1)[1].split())
+        bad = monitor(pre, post, mi.split("|")[0].strip() == "ok=1", "DIR") if w[0] == "cd" else None
+        print("monitor        : " + (bad or "ok"))
+        return 1 if (bad or mi != mm) else 0
     return 0
